@@ -346,13 +346,132 @@ class Executor(object):
 
     def stmt_If(self, node, st):
         out = []
+        base_len = len(st.pc)
+        base_pc = list(st.pc)
         for (s, c) in self.eval_cond(node.test, st):
             if isinstance(c, _Raised):
                 out.append((s, Outcome("raise", exc=c.exc)))
                 continue
             body = node.body if c else node.orelse
             out.extend(self.exec_block(body, s))
-        return out
+        return self.merge_outcomes(out, base_pc)
+
+    # ------------------------------------------------------------------ state merging at joins
+    def merge_outcomes(self, outs, base_pc):
+        """merge the normally-completing states of a conditional into one (values become ite-terms),
+        when they differ only in locals / heap / path condition"""
+        normals = [(s, oc) for (s, oc) in outs if oc.kind == "normal"]
+        if len(normals) < 2 or not getattr(self, "merge_enabled", True):
+            return outs
+        others = [(s, oc) for (s, oc) in outs if oc.kind != "normal"]
+        m = self.merge_states([s for (s, _) in normals], base_pc)
+        if m is None:
+            return outs
+        return others + [(m, NORMAL)]
+
+    def merge_states(self, states, base_pc):
+        n0 = len(base_pc)
+        for s in states:
+            if len(s.pc) < n0 or any(not (a is b or z3.eq(_zb(a), _zb(b))) for a, b in zip(s.pc[:n0], base_pc)):
+                return None
+        first = states[0]
+        for s in states[1:]:
+            if len(s.log) != len(first.log) or any(a is not b for a, b in zip(s.log, first.log)):
+                return None
+            if set(s.ghost.keys()) != set(first.ghost.keys()) or any(s.ghost[k] is not first.ghost[k] and s.ghost[k] != first.ghost[k] for k in first.ghost if k != "schemas"):
+                return None
+            if len(s.ghost.get("schemas", [])) != len(first.ghost.get("schemas", [])):
+                return None
+        guards = []
+        for s in states:
+            extra = [_zb(p) for p in s.pc[n0:]]
+            guards.append(z3.And(*extra) if len(extra) > 1 else (extra[0] if extra else z3.BoolVal(True)))
+        m = first.fork()
+        m.pc = list(base_pc) + [z3.Or(*guards)]
+        # locals
+        names = []
+        for s in states:
+            for k in s.locals:
+                if k not in names:
+                    names.append(k)
+        newloc = {}
+        for k in names:
+            vals = [s.locals.get(k, _MISSING) for s in states]
+            if any(v is _MISSING for v in vals):
+                # defined on some branches only: usable only if never read afterwards; keep undefined
+                continue
+            mv = self._merge_vals(vals, guards)
+            if mv is _NOMERGE:
+                return None
+            newloc[k] = mv
+        m.locals = newloc
+        # heap
+        keys = []
+        for s in states:
+            for k in s.heap.maps:
+                if k not in keys:
+                    keys.append(k)
+        from .heap import IMap, map_same
+
+        for k in keys:
+            maps = [s.heap.ensure(k) for s in states]
+            cur = maps[-1]
+            for g, mp in zip(reversed(guards[:-1]), reversed(maps[:-1])):
+                if not map_same(mp, cur):
+                    cur = IMap(g, mp, cur)
+            m.heap.maps[k] = cur
+        # obligations: union
+        seen = set()
+        obl = []
+        for s in states:
+            for o in s.obligs:
+                if id(o) not in seen:
+                    seen.add(id(o))
+                    obl.append(o)
+        m.obligs = obl
+        m.path = list(first.path)
+        return m
+
+    def _merge_vals(self, vals, guards):
+        v0 = vals[0]
+        if all(v is v0 for v in vals):
+            return v0
+        if all(isinstance(v, (Num, int, float)) and not isinstance(v, bool) for v in vals):
+            cur = Num.lift(vals[-1])
+            for g, v in zip(reversed(guards[:-1]), reversed(vals[:-1])):
+                cur = ite(g, Num.lift(v), cur)
+            return cur
+        if all(isinstance(v, bool) or (is_z3(v) and v.sort() == z3.BoolSort()) for v in vals):
+            cur = _zb(vals[-1])
+            for g, v in zip(reversed(guards[:-1]), reversed(vals[:-1])):
+                cur = z3.If(g, _zb(v), cur)
+            return cur
+        if all(isinstance(v, RefV) for v in vals) and len(set(v.cls for v in vals)) == 1:
+            cur = vals[-1].term
+            for g, v in zip(reversed(guards[:-1]), reversed(vals[:-1])):
+                cur = z3.If(g, v.term, cur)
+            return RefV(cur, v0.cls)
+        if all(isinstance(v, Opt) or v is NONEV or isinstance(v, Num) for v in vals):
+            opts = [v if isinstance(v, Opt) else (Opt(True, Num.lift(0)) if v is NONEV else Opt(False, v)) for v in vals]
+            isn = self._merge_vals([o.isnone for o in opts], guards)
+            try:
+                inner = self._merge_vals([o.val for o in opts], guards)
+            except Exception:
+                return _NOMERGE
+            if inner is _NOMERGE:
+                return _NOMERGE
+            return Opt(isn, inner)
+        if all(isinstance(v, TupleV) for v in vals) and len(set(len(v.items) for v in vals)) == 1:
+            items = []
+            for i in range(len(v0.items)):
+                x = self._merge_vals([v.items[i] for v in vals], guards)
+                if x is _NOMERGE:
+                    return _NOMERGE
+                items.append(x)
+            return TupleV(items)
+        if all(isinstance(v, str) for v in vals) and len(set(vals)) == 1:
+            return v0
+        return _NOMERGE
 
     def eval_cond(self, e, st):
         """evaluate a test expression and branch on it -> list of (state, python bool)"""
@@ -691,6 +810,13 @@ class Executor(object):
                     r = h(st, obj, attr)
                     if r is not None:
                         return r
+                # defined only in subclasses: case split on the dynamic class
+                groups = self.top_definers(obj.cls, attr) if obj.cls in self.prog.classes else []
+                if groups:
+                    out = []
+                    for (s1, o1) in self.split_on_class(st, obj, groups):
+                        out.extend(self.load_attr(s1, o1, attr))
+                    return out
                 self._undecided("attribute %s not in schema (class %s)" % (attr, obj.cls))
             return [(st, st.heap.get(obj, attr))]
         if isinstance(obj, HistV):
@@ -978,6 +1104,36 @@ class Executor(object):
                 return r
         self._undecided("library function %s" % name)
 
+    def top_definers(self, cls, name, exclude=None):
+        """top-most classes strictly below `cls` that define method/property `name`"""
+        defs = [c for c in self.prog.subclasses(cls) if c != cls and c != exclude and (name in self.prog.classes[c].methods or name in self.prog.classes[c].properties)]
+        tops = []
+        for c in defs:
+            anc = self.prog.mro(c)[1:]
+            if not any(a in defs for a in anc):
+                tops.append(c)
+        return sorted(tops)
+
+    def split_on_class(self, st, obj, groups, residual=None):
+        """fork on the dynamic class of obj: one branch per group (narrowed static class) and,
+        if feasible, a residual branch (none of the groups)"""
+        out = []
+        conds = []
+        for g in groups:
+            c = Or(*[cls_f(obj.term) == self.schema.tag(k) for k in sorted(self.prog.subclasses(g))])
+            conds.append(c)
+        rest = Not(Or(*conds)) if conds else True
+        for g, c in zip(groups, conds):
+            if self.feasible(st, c):
+                s1 = st.fork()
+                s1.assume(c)
+                out.append((s1, RefV(obj.term, g)))
+        if residual is not None and self.feasible(st, rest if not isinstance(rest, bool) else z3.BoolVal(rest)):
+            s1 = st.fork()
+            s1.assume(rest if not isinstance(rest, bool) else z3.BoolVal(rest))
+            out.append((s1, RefV(obj.term, obj.cls)))
+        return out
+
     # ---- function calls: contract or inline
     def bind_args(self, fi, recv, pos, kw):
         a = fi.node.args
@@ -1027,12 +1183,20 @@ class Executor(object):
                 elif q in self.contracts and getattr(self.contracts[q], "family", False):
                     target_q = q
                 else:
-                    self._undecided("dynamic dispatch on %s.%s without interface contract (overridden in %s)" % (recv.cls, fi.name, ovr))
+                    groups = self.top_definers(recv.cls, fi.name, exclude=fi.cls)
+                    out = []
+                    for (s1, r1) in self.split_on_class(st, recv, groups, residual=fi.cls):
+                        if r1.cls == recv.cls:
+                            out.extend(self.call_function(s1, fi, r1, pos, kw, exact=True))
+                        else:
+                            f1 = self.prog.lookup_method(r1.cls, fi.name)
+                            out.extend(self.call_function(s1, f1, r1, pos, kw))
+                    return out
         c = self.contracts.get(target_q)
         if c is not None and not (q in self.inline):
             self.stats.contracts_used.add(target_q)
             return c.apply(self, st, recv, [bound[n] for n in names], exact=exact)
-        if q in self.inline or fi.nstmts() <= 0:
+        if q in self.inline or fi.nstmts() <= 0 or (via_property and fi.nstmts() <= 6):
             return self.inline_call(st, fi, recv, names, bound)
         self._undecided("call to %s: no contract and not inlinable" % q)
 
@@ -1097,6 +1261,14 @@ class Executor(object):
 
     def expr_JoinedStr(self, e, st):
         return [(st, "<fmt>")]
+
+
+_MISSING = object()
+_NOMERGE = object()
+
+
+def _zb(f):
+    return z3.BoolVal(f) if isinstance(f, bool) else f
 
 
 class _Raised(object):
